@@ -30,6 +30,12 @@ func (r srvRaw) Bytes() []byte       { return r.b }
 
 type srvHandler struct{ mode int }
 
+// mode 2: the handler of mode 0, but slower than the server's write timeout
+const (
+	srvSlowHandler  = 60 * time.Millisecond
+	srvShortTimeout = 20 * time.Millisecond
+)
+
 func srvPattern(start uint16, n int) []byte {
 	b := make([]byte, n)
 	for i := range b {
@@ -84,6 +90,9 @@ func srvEcho(req packet.Request) (uint16, packet.Response) {
 func (h srvHandler) Handle(ctx context.Context, req packet.Request) (packet.Response, error) {
 	if h.mode == 1 {
 		return srvRaw{[]byte{}}, nil
+	}
+	if h.mode == 2 {
+		time.Sleep(srvSlowHandler) // longer than the WriteTimeout of the rig it runs in
 	}
 	tid, resp := srvEcho(req)
 	cls := int(tid % 8)
@@ -411,6 +420,7 @@ type srvRec struct {
 	net.Conn
 	mu             sync.Mutex
 	reads          [][]byte
+	flags          []bool // the read came together with os.ErrDeadlineExceeded
 	cums           [][]byte
 	written        []byte
 	nwrites        int
@@ -423,30 +433,42 @@ type srvRec struct {
 
 func newSrvRec(c net.Conn) *srvRec { return &srvRec{Conn: c, closed: make(chan struct{})} }
 
+// Read records the non-empty reads and, on a scripted connection, the scripted empty ones
 func (c *srvRec) Read(p []byte) (int, error) {
 	n, err := c.Conn.Read(p)
+	dl := err != nil && errors.Is(err, os.ErrDeadlineExceeded)
+	scripted := false
+	if sc, ok := c.Conn.(*srvScript); ok {
+		scripted = sc.lastScripted
+	}
 	c.mu.Lock()
-	if n > 0 {
+	if n > 0 || scripted {
 		c.reads = append(c.reads, append([]byte(nil), p[:n]...))
+		c.flags = append(c.flags, dl)
 		c.cums = append(c.cums, append([]byte(nil), c.written...))
 	}
-	if err != nil && !errors.Is(err, os.ErrDeadlineExceeded) {
+	if err != nil && !dl {
 		c.sawReadErr = true
 	}
 	c.mu.Unlock()
 	return n, err
 }
+
+// Write records what the connection accepted
 func (c *srvRec) Write(p []byte) (int, error) {
+	n, err := c.Conn.Write(p)
 	c.mu.Lock()
-	c.written = append(c.written, p...)
-	c.nwrites++
-	if len(c.cums) > 0 {
-		c.cums[len(c.cums)-1] = append([]byte(nil), c.written...)
-	} else {
-		c.earlyWrite = true
+	if n > 0 {
+		c.written = append(c.written, p[:n]...)
+		c.nwrites++
+		if len(c.cums) > 0 {
+			c.cums[len(c.cums)-1] = append([]byte(nil), c.written...)
+		} else {
+			c.earlyWrite = true
+		}
 	}
 	c.mu.Unlock()
-	return c.Conn.Write(p)
+	return n, err
 }
 func (c *srvRec) Close() error {
 	c.mu.Lock()
@@ -544,6 +566,133 @@ func (c *srvBuf) SetDeadline(t time.Time) error {
 func (c *srvBuf) SetReadDeadline(t time.Time) error  { return c.SetDeadline(t) }
 func (c *srvBuf) SetWriteDeadline(t time.Time) error { return nil }
 
+// srvScript is the server side of a connection whose reads follow a script: every event is what
+// one conn.Read returns -- (n, nil), (n, os.ErrDeadlineExceeded) or (0, os.ErrDeadlineExceeded) --
+// as io.Reader allows and a user-supplied listener may do.  After the script the reads block until
+// the read deadline.  Write enforces the write deadline: after it, it fails with
+// os.ErrDeadlineExceeded.
+type srvEvent struct {
+	data []byte
+	dl   bool
+}
+
+type srvScript struct {
+	mu           sync.Mutex
+	events       []srvEvent
+	eof          bool
+	closed       bool
+	rdl, wdl     time.Time
+	wake         chan struct{}
+	idle         chan struct{} // signalled when a Read finds the script exhausted
+	lastScripted bool          // the last Read returned a scripted event (read by the same goroutine)
+}
+
+func newSrvScript(events []srvEvent) *srvScript {
+	return &srvScript{events: append([]srvEvent(nil), events...), wake: make(chan struct{}, 1), idle: make(chan struct{}, 1)}
+}
+func (c *srvScript) Read(p []byte) (int, error) {
+	for {
+		c.mu.Lock()
+		if c.closed {
+			c.lastScripted = false
+			c.mu.Unlock()
+			return 0, net.ErrClosed
+		}
+		if len(c.events) > 0 {
+			ev := c.events[0]
+			n := copy(p, ev.data)
+			c.lastScripted = true
+			if n < len(ev.data) { // longer than the caller's buffer: the rest comes with the next Read
+				c.events[0].data = ev.data[n:]
+				c.mu.Unlock()
+				return n, nil
+			}
+			c.events = c.events[1:]
+			c.mu.Unlock()
+			if ev.dl {
+				return n, os.ErrDeadlineExceeded
+			}
+			return n, nil
+		}
+		c.lastScripted = false
+		if c.eof {
+			c.mu.Unlock()
+			return 0, io.EOF
+		}
+		dl := c.rdl
+		c.mu.Unlock()
+		select {
+		case c.idle <- struct{}{}:
+		default:
+		}
+		wait := time.Until(dl)
+		if dl.IsZero() {
+			wait = time.Hour
+		}
+		if wait <= 0 {
+			return 0, os.ErrDeadlineExceeded
+		}
+		t := time.NewTimer(wait)
+		select {
+		case <-c.wake:
+			t.Stop()
+		case <-t.C:
+			return 0, os.ErrDeadlineExceeded
+		}
+	}
+}
+func (c *srvScript) Write(p []byte) (int, error) {
+	c.mu.Lock()
+	wdl, closed := c.wdl, c.closed
+	c.mu.Unlock()
+	if closed {
+		return 0, net.ErrClosed
+	}
+	if !wdl.IsZero() && time.Now().After(wdl) {
+		return 0, os.ErrDeadlineExceeded
+	}
+	return len(p), nil
+}
+func (c *srvScript) Close() error {
+	c.mu.Lock()
+	c.closed = true
+	c.mu.Unlock()
+	select {
+	case c.wake <- struct{}{}:
+	default:
+	}
+	return nil
+}
+func (c *srvScript) sendEOF() {
+	c.mu.Lock()
+	c.eof = true
+	c.mu.Unlock()
+	select {
+	case c.wake <- struct{}{}:
+	default:
+	}
+}
+func (c *srvScript) LocalAddr() net.Addr  { return srvAddr{} }
+func (c *srvScript) RemoteAddr() net.Addr { return srvAddr{} }
+func (c *srvScript) SetDeadline(t time.Time) error {
+	c.mu.Lock()
+	c.rdl, c.wdl = t, t
+	c.mu.Unlock()
+	return nil
+}
+func (c *srvScript) SetReadDeadline(t time.Time) error {
+	c.mu.Lock()
+	c.rdl = t
+	c.mu.Unlock()
+	return nil
+}
+func (c *srvScript) SetWriteDeadline(t time.Time) error {
+	c.mu.Lock()
+	c.wdl = t
+	c.mu.Unlock()
+	return nil
+}
+
 // ---------- a running real server ----------
 
 type srvRig struct {
@@ -556,6 +705,9 @@ type srvRig struct {
 func newSrvRig(mode int) *srvRig {
 	g := &srvRig{lis: newSrvListener(), served: make(chan error, 1)}
 	g.srv = &server.Server{OnErrorFunc: func(err error) { g.nerr.Add(1) }}
+	if mode == 2 {
+		g.srv.WriteTimeout = srvShortTimeout
+	}
 	go func() { g.served <- g.srv.Serve(context.Background(), g.lis, srvHandler{mode}) }()
 	return g
 }
@@ -645,6 +797,15 @@ func (g *srvRig) connOutcome(rec *srvRec, nerrBefore int64) []V {
 	return []V{L(cums...), I(st), I(rec.nwrites)}
 }
 
+// srvReadsV: the recorded reads of a scripted connection as [bytes; came with a deadline error]
+func srvReadsV(reads [][]byte, flags []bool) V {
+	vs := make([]V, len(reads))
+	for i, c := range reads {
+		vs[i] = L(B(c), Bool(flags[i]))
+	}
+	return L(vs...)
+}
+
 func srvChunksV(chunks [][]byte) V {
 	vs := make([]V, len(chunks))
 	for i, c := range chunks {
@@ -674,6 +835,9 @@ func srvCut(b []byte, cuts []int) [][]byte {
 
 // one direct ReceiveRead of all bytes on a fresh assembler: [bytes; nil; status]
 func srvWhole(mode int, all []byte) V {
+	if mode == 2 {
+		mode = 0 // the same handler without the delay
+	}
 	return srvDirectStep(&server.ModbusTCPAssembler{Handler: srvHandler{mode}}, all, nil)
 }
 
